@@ -83,9 +83,14 @@ theorem syncGoK_const : ∀ (fuel : Nat) (s : Proc), syncGoK κ P fuel s = syncG
     unfold syncGoK syncGo
     simp only [dequeueBlockK_const h, syncGoK_const fuel] <;> rfl
 
+theorem syncDrainK_const (s : Proc) : syncDrainK κ P s = syncDrain P s := by
+  unfold syncDrainK syncDrain
+  exact syncGoK_const h _ _
+
 theorem syncK_const (s : Proc) : syncK κ P s = sync P s := by
   unfold syncK sync
-  exact syncGoK_const h _ _
+  rw [syncDrainK_const h]
+  rfl
 
 theorem finishK_const (s : Proc) : finishK κ P s = finish P s := by
   unfold finishK finish
